@@ -418,15 +418,18 @@ class DisjunctionMaxMatcher(UnionMatcher):
             return a.skip_to_quality(minquality)
 
         skipped = 0
-        aq = a.block_quality()
-        bq = b.block_quality()
-        while a.is_active() and b.is_active() and max(aq, bq) <= minquality:
-            if aq <= minquality:
-                skipped += a.skip_to_quality(minquality)
-                aq = a.block_quality()
-            if bq <= minquality:
-                skipped += b.skip_to_quality(minquality)
-                bq = b.block_quality()
+        while a.is_active() and b.is_active():
+            aq = a.block_quality()
+            bq = b.block_quality()
+            if max(aq, bq) > minquality:
+                break
+            sk = a.skip_to_quality(minquality)
+            if b.is_active():
+                sk += b.skip_to_quality(minquality)
+            if not sk:
+                break
+            skipped += sk
+        self._id = None
         return skipped
 
 
